@@ -69,3 +69,15 @@ claim("C03",
       "trusts vf/ref/parsers.py; whitespace inside a line that was split into several text "
       "nodes is not compared",
       "DESIGN.md 3/C03")
+claim("C04",
+      "abstract caption model -> independent serialisers with generated spelling plans "
+      "(entity spellings, wraps, tag nestings) -> pycaption readers; expected display text "
+      "computed from the model",
+      "Generated-input search: 25k (thorough 900k) documents in the five text formats; every "
+      "authored run may carry named/decimal/hex references per character, entity look-alikes, "
+      "source-line wraps, inline markup (spans, i/b/u/font, WebVTT c/ruby/rt/lang/timestamp/"
+      "voice/unknown tags); per line, the text of TEXT nodes between BREAK nodes must equal the "
+      "authored text after trimming and whitespace collapsing.",
+      "trusts vf/ref/serial.py and the expectation rules in vf/props/c04.py; well-formed "
+      "documents only (no raw < or & in text)",
+      "DESIGN.md 3/C04")
